@@ -3,6 +3,7 @@ package drv
 import (
 	"bytes"
 	"context"
+	"encoding/json"
 	"errors"
 	"fmt"
 	"io"
@@ -11,6 +12,7 @@ import (
 	"reflect"
 	"sort"
 	"strings"
+	"sync"
 
 	"github.com/getkin/kin-openapi/openapi3"
 	"github.com/getkin/kin-openapi/openapi3filter"
@@ -209,6 +211,152 @@ func oaReasons(err error) []string {
 	return sortedKeys(set)
 }
 
+
+// ---------------------------------------------------------------------------------------------
+// schemas shared between operations
+
+// c14Shared records, per design, the operations whose request (or response) body schema is a
+// $ref that another operation with different designed body constraints also uses. goa names
+// one schema per structural hash; when two bodies with the same attribute names and types but
+// different validations or defaults share a hash, one of them is documented with the other's
+// constraints. The sharing itself is reported once per method (static finding); value-level
+// comparison on that side is skipped for the methods involved because its verdicts would be
+// attributed to the wrong keyword (the isolated one-method-per-design corpora carry the
+// keyword-level comparison).
+type c14Shared struct {
+	req, resp map[string]string // "service/method" -> description of the conflict
+}
+
+var c14SharedCache = map[string]*c14Shared{}
+var c14SharedMu sync.Mutex
+
+func bodyCanon(sp *spec.Spec, l *Layout, withDefaults bool) string {
+	var parts []string
+	for _, p := range l.Places {
+		if p.Loc != spec.LocBody {
+			continue
+		}
+		b, _ := json.Marshal(p.T)
+		// named types are compared by their definition too
+		var defs []string
+		var walk func(t *spec.Type, depth int)
+		walk = func(t *spec.Type, depth int) {
+			if t == nil || depth > 4 {
+				return
+			}
+			if t.K == spec.KUser {
+				if td := sp.TypeDefByName(t.Ref); td != nil {
+					db, _ := json.Marshal(td)
+					defs = append(defs, string(db))
+				}
+			}
+			walk(t.Elem, depth+1)
+			walk(t.Key, depth+1)
+			for _, a := range t.Attrs {
+				walk(a.T, depth+1)
+			}
+		}
+		walk(p.T, 0)
+		d := ""
+		if withDefaults && p.A != nil && p.A.HasDefault {
+			d = fmt.Sprintf(" default=%v", p.A.Default)
+		}
+		req := p.Req
+		if !withDefaults && req == "default" {
+			req = "optional"
+		}
+		parts = append(parts, fmt.Sprintf("%s:%s:%s%s%v", p.Attr, string(b), req, d, defs))
+	}
+	return strings.Join(parts, ";")
+}
+
+func sharedSchemas(s *Svc) *c14Shared {
+	dir := designDir(s.Design)
+	c14SharedMu.Lock()
+	defer c14SharedMu.Unlock()
+	if sh, ok := c14SharedCache[dir]; ok {
+		return sh
+	}
+	sh := &c14Shared{req: map[string]string{}, resp: map[string]string{}}
+	c14SharedCache[dir] = sh
+	d := loadDocs(s.Design)
+	if d.gen3 == nil {
+		return sh
+	}
+	ops := map[string]docOp{}
+	for _, o := range docOps(d.gen3, false) {
+		ops[routeKey(o.Verb, o.Path)] = o
+	}
+	type member struct{ key, canon, canonNoDef string }
+	reqGroups, respGroups := map[string][]member{}, map[string][]member{}
+	refOf := func(content any) string {
+		c := asMap(asMap(content)["application/json"])
+		if len(c) == 0 {
+			for _, v := range asMap(content) {
+				c = asMap(v)
+			}
+		}
+		r, _ := asMap(c["schema"])["$ref"].(string)
+		return r
+	}
+	for _, svc := range s.Spec.Services {
+		for _, m := range svc.Methods {
+			if m.HTTP == nil {
+				continue
+			}
+			o, ok := ops[routeKey(m.HTTP.Verb, starRe.ReplaceAllString(fullPathOf(s.Spec, svc, m.HTTP.Path), "{$1}"))]
+			if !ok {
+				continue
+			}
+			key := svc.Name + "/" + m.Name
+			if m.Payload != nil {
+				if ref := refOf(asMap(o.Op["requestBody"])["content"]); ref != "" {
+					l := RequestLayout(s.Spec, svc, m)
+					reqGroups[ref] = append(reqGroups[ref], member{key, bodyCanon(s.Spec, l, true), bodyCanon(s.Spec, l, false)})
+				}
+			}
+			if m.Result != nil {
+				for _, rs := range successResponses(m) {
+					rs := rs
+					if ref := refOf(asMap(asMap(o.Op["responses"])[fmt.Sprint(rs.Status)])["content"]); ref != "" {
+						l := ResponseLayout(s.Spec, m, &rs)
+						respGroups[ref] = append(respGroups[ref], member{key, bodyCanon(s.Spec, l, true), bodyCanon(s.Spec, l, false)})
+					}
+				}
+			}
+		}
+	}
+	mark := func(groups map[string][]member, into map[string]string) {
+		for ref, ms := range groups {
+			diffV, diffD := false, false
+			for _, m := range ms[1:] {
+				if m.canonNoDef != ms[0].canonNoDef {
+					diffV = true
+				} else if m.canon != ms[0].canon {
+					diffD = true
+				}
+			}
+			if !diffV && !diffD {
+				continue
+			}
+			what := "defaults"
+			if diffV {
+				what = "validations"
+			}
+			var names []string
+			for _, m := range ms {
+				names = append(names, m.key)
+			}
+			for _, m := range ms {
+				into[m.key] = fmt.Sprintf("%s|schema %s is used by %v whose designed body %s differ", what, ref, names, what)
+			}
+		}
+	}
+	mark(reqGroups, sh.req)
+	mark(respGroups, sh.resp)
+	return sh
+}
+
 // c14Feat is the feature part of a signature.
 func c14Feat(s *Svc, m *spec.Method, p *Place) string {
 	f := m.Feat
@@ -251,7 +399,43 @@ func runC14(s *Svc, m *spec.Method, tier string) *MethodResult {
 	if o.lenient {
 		r.note("methods_checked_against_leniently_read_document_(numeric_exclusive_bounds)", 1)
 	}
-	if m.Payload != nil {
+	sh := sharedSchemas(s)
+	mkey := s.Service.Name + "/" + m.Name
+	reqShared, respShared := sh.req[mkey] != "", sh.resp[mkey] != ""
+	for side, desc := range map[string]string{"request": sh.req[mkey], "response": sh.resp[mkey]} {
+		if desc == "" {
+			continue
+		}
+		what, detail, _ := strings.Cut(desc, "|")
+		r.Cases++
+		r.Nontrivial++
+		r.outcome("schema-shared-with-differently-constrained-operation side=" + side)
+		r.violation(fmt.Sprintf("C14 schema-shared side=%s differ=%s", side, what),
+			fmt.Sprintf("the %s body of %s %s is documented by a schema that another operation with different designed %s also references: %s", side, m.HTTP.Verb, o.tmpl, what, detail),
+			map[string]any{"design": s.Design, "service": s.Service.Name, "method": m.Name, "side": side, "detail": detail, "dir": designDir(s.Design)},
+			func() []string {
+				c14SharedMu.Lock()
+				delete(c14SharedCache, designDir(s.Design))
+				c14SharedMu.Unlock()
+				oaCache.Delete(designDir(s.Design))
+				sh2 := sharedSchemas(s)
+				var sigs []string
+				for sd, ds := range map[string]string{"request": sh2.req[mkey], "response": sh2.resp[mkey]} {
+					if ds != "" {
+						w, _, _ := strings.Cut(ds, "|")
+						sigs = append(sigs, fmt.Sprintf("C14 schema-shared side=%s differ=%s", sd, w))
+					}
+				}
+				return sigs
+			})
+	}
+	if reqShared {
+		r.note("methods_whose_request_body_values_are_not_compared_(schema_shared,_see_isolated_corpora)", 1)
+	}
+	if respShared {
+		r.note("methods_whose_response_body_values_are_not_compared_(schema_shared,_see_isolated_corpora)", 1)
+	}
+	if m.Payload != nil && !reqShared {
 		seen := map[string]bool{}
 		for _, v := range payloadValues(s, m, l) {
 			if !sendable(l, v) {
@@ -287,7 +471,7 @@ func runC14(s *Svc, m *spec.Method, tier string) *MethodResult {
 		}
 		c14Malformed(s, m, l, o, r)
 	}
-	if m.Result != nil && s.NumResults(m.Name) == 2 {
+	if m.Result != nil && s.NumResults(m.Name) == 2 && !respShared {
 		first := successResponses(m)[0]
 		rl := ResponseLayout(sp, m, &first)
 		seen := map[string]bool{}
@@ -316,7 +500,7 @@ func runC14(s *Svc, m *spec.Method, tier string) *MethodResult {
 			r.Nontrivial++
 			c14Result(s, m, o, v, r, true)
 		}
-	} else if m.Result != nil {
+	} else if m.Result != nil && !respShared {
 		r.note("viewed_results_not_checked_against_response_schemas", 1)
 	}
 	if m.Feat["family"] == "L2-errors" {
@@ -494,7 +678,7 @@ func c14Malformed(s *Svc, m *spec.Method, l *Layout, o *c14Op, r *MethodResult) 
 					req.AddCookie(&http.Cookie{Name: p.Wire, Value: b})
 				}})
 			case spec.LocBody:
-				if l.BodyKind == "object" && e.K != spec.KArray {
+				if l.BodyKind == "object" && e.K != spec.KArray && len(b) <= 15 { // beyond 2^53 the validator is not exact
 					vs = append(vs, variant{"body-number-" + textClass14(b), func(_ *http.Request, body *[]byte) {
 						if b == "zz" {
 							return
@@ -514,8 +698,9 @@ func c14Malformed(s *Svc, m *spec.Method, l *Layout, o *c14Op, r *MethodResult) 
 			vs = append(vs, variant{"body-invalid-json", func(_ *http.Request, body *[]byte) { *body = []byte(`{"` + p.Wire + `":`) }})
 			vs = append(vs, variant{"body-wrong-top-level-type", func(_ *http.Request, body *[]byte) { *body = []byte(`[1]`) }})
 			vs = append(vs, variant{"body-undesigned-key", func(_ *http.Request, body *[]byte) {
-				if bytes.HasSuffix(*body, []byte("}")) && len(*body) > 2 {
-					*body = append((*body)[:len(*body)-1], []byte(`,"zzextra":1}`)...)
+				b := bytes.TrimRight(*body, " \r\n\t")
+				if bytes.HasSuffix(b, []byte("}")) && len(b) > 2 {
+					*body = append(append([]byte{}, b[:len(b)-1]...), []byte(`,"zzextra":1}`)...)
 				}
 			}})
 			if p.Req == "required" {
